@@ -520,6 +520,25 @@ Check C05_alphabet_of_components : forall dbg u, CInv dbg u -> Forall ok_or_spac
   (has_host u = true -> ~ In 32 (piece u (host_start u) (host_end u))) -> alphabet_ok u.
 Print Assumptions C05_alphabet_of_components.
 
+(* the first sentence of the property text - only 0x21..0x7E, U+0020 solely inside an opaque path - for every record
+   of CReach3 (parse, join, gated steps of all 19 mutators) whose stored host text has no space; IpOKv hd: address
+   values print inside 0x21..0x7E.  GAP to C05_history_sharp_statement on CReach3: the condition on the host text of
+   the reached record (it holds for every parse result by C05_bytes and is kept by the mutators - they copy the host
+   text or write the Display of a parsed host / an address -, but this invariant is not proved along steps). *)
+Theorem C05_alphabet_reach : forall dbg hp hpo hd u, HostWf hp hpo hd -> HostOK hp hpo hd -> IpDisp hd -> IpOKv hd ->
+  CReach3 dbg hp hpo hd u ->
+  (has_host u = true -> ~ In 32 (piece u (host_start u) (host_end u))) -> alphabet_ok u.
+Proof. intros dbg hp hpo hd u HW HOK HI HV. exact (creach3_alphabet dbg hp hpo hd HW HOK HI HV u). Qed.
+Check C05_alphabet_reach : forall dbg hp hpo hd u, HostWf hp hpo hd -> HostOK hp hpo hd -> IpDisp hd -> IpOKv hd ->
+  CReach3 dbg hp hpo hd u ->
+  (has_host u = true -> ~ In 32 (piece u (host_start u) (host_end u))) -> alphabet_ok u.
+Print Assumptions C05_alphabet_reach.
+
+(* the hypotheses of C05_alphabet_reach are met (Proofs/C05_FinEx.v): HostOK, IpOKv for the example host functions, and
+   the reached record "http://1.2.3.4:81/w%20v" of C05_components_reach3_inhabited has a space-free host text *)
+Example C05_alphabet_reach_inhabited : fin_alphabet_stmt.
+Proof. exact fin_alphabet. Qed.
+
 (* ================= non-vacuity ================= *)
 Definition ex_hp (s : list N) : result host := Ok (HDomain s).
 Definition ex_hd (h : host) : list N := match h with HDomain d => d | _ => [] end.
